@@ -471,13 +471,243 @@ pub fn run(seed: u64, samples: usize, workers: usize) -> Summary {
         },
     );
     sum.extra.insert("integer_ops".into(), json!(ops.len()));
+    run_composites(seed, samples.max(200), &mut sum);
     sum
 }
 
 pub fn replay(j: &J) -> Option<(String, String)> {
+    let hexv = |x: &J| -> Vec<u64> { x.as_array().unwrap().iter().map(|s| util::parse_hex(s.as_str().unwrap())).collect() };
+    if j["composite"].as_bool() == Some(true) {
+        let ops = comp_ops();
+        let op = ops.iter().find(|o| o.name == j["op"].as_str().unwrap()).expect("replay: unknown composite integer op");
+        return judge_comp(op, &hexv(&j["a"]), &hexv(&j["b"])).0;
+    }
     let ops = int_ops();
     let name = j["op"].as_str().unwrap();
     let op = ops.iter().find(|o| o.name == name).expect("replay: unknown integer op");
     let hexv = |x: &J| -> Vec<u64> { x.as_array().unwrap().iter().map(|s| util::parse_hex(s.as_str().unwrap())).collect() };
     judge(op, &hexv(&j["a"]), &hexv(&j["b"])).0
+}
+
+// ---------------------------------------------------------------------------------------------
+// composite integer functions (cross, perp_dot, rotate, perp): the result is a small expression of primitive `*`, `+`,
+// `-`; which expression is not documented, so the primitive's panic points are bounded from both sides:
+//   * the exact result of a lane does not fit the element type  =>  every expression overflows somewhere: in a build with
+//     overflow checks the call MUST panic, without them it must return the wrapped result;
+//   * no intermediate of the textbook expression leaves the range =>  the call MUST NOT panic and returns the exact result;
+//   * in between either outcome is accepted (but a returned value must be the wrapped result).
+
+pub struct CompOp {
+    pub name: String,
+    pub ty: TyId,
+    pub binary: bool,
+    /// scalar result (perp_dot) instead of a vector
+    pub vec: VecOp,
+    /// exact lanes and every intermediate of the textbook expression; `None` when 128 bits do not hold an intermediate
+    pub model: fn(&[i128], &[i128]) -> Option<(Vec<i128>, Vec<i128>)>,
+    /// the same expression in wrapping 64-bit arithmetic (exact modulo 2^64, hence modulo the element width)
+    pub wrapped: fn(&[u64], &[u64]) -> Vec<u64>,
+}
+
+fn m(a: i128, b: i128) -> Option<i128> { a.checked_mul(b) }
+
+fn cross_model(a: &[i128], b: &[i128]) -> Option<(Vec<i128>, Vec<i128>)> {
+    let p = [m(a[1], b[2])?, m(b[1], a[2])?, m(a[2], b[0])?, m(b[2], a[0])?, m(a[0], b[1])?, m(b[0], a[1])?];
+    let r = vec![p[0].checked_sub(p[1])?, p[2].checked_sub(p[3])?, p[4].checked_sub(p[5])?];
+    Some((r.clone(), p.iter().copied().chain(r).collect()))
+}
+fn cross_wrapped(a: &[u64], b: &[u64]) -> Vec<u64> {
+    let w = |x: u64, y: u64, z: u64, t: u64| x.wrapping_mul(y).wrapping_sub(z.wrapping_mul(t));
+    vec![w(a[1], b[2], b[1], a[2]), w(a[2], b[0], b[2], a[0]), w(a[0], b[1], b[0], a[1])]
+}
+fn perp_dot_model(a: &[i128], b: &[i128]) -> Option<(Vec<i128>, Vec<i128>)> {
+    let p = [m(a[0], b[1])?, m(a[1], b[0])?];
+    let r = p[0].checked_sub(p[1])?;
+    Some((vec![r], vec![p[0], p[1], r]))
+}
+fn perp_dot_wrapped(a: &[u64], b: &[u64]) -> Vec<u64> {
+    vec![a[0].wrapping_mul(b[1]).wrapping_sub(a[1].wrapping_mul(b[0]))]
+}
+fn rotate_model(a: &[i128], b: &[i128]) -> Option<(Vec<i128>, Vec<i128>)> {
+    let p = [m(a[0], b[0])?, m(a[1], b[1])?, m(a[1], b[0])?, m(a[0], b[1])?];
+    let r = vec![p[0].checked_sub(p[1])?, p[2].checked_add(p[3])?];
+    Some((r.clone(), p.iter().copied().chain(r).collect()))
+}
+fn rotate_wrapped(a: &[u64], b: &[u64]) -> Vec<u64> {
+    vec![a[0].wrapping_mul(b[0]).wrapping_sub(a[1].wrapping_mul(b[1])), a[1].wrapping_mul(b[0]).wrapping_add(a[0].wrapping_mul(b[1]))]
+}
+fn perp_model(a: &[i128], _: &[i128]) -> Option<(Vec<i128>, Vec<i128>)> {
+    let r = vec![-a[1], a[0]];
+    Some((r.clone(), r))
+}
+fn perp_wrapped(a: &[u64], _: &[u64]) -> Vec<u64> {
+    vec![a[1].wrapping_neg(), a[0]]
+}
+
+macro_rules! comp_cross {
+    ($v:ident, $($T:ident),*) => {$(
+        $v.push(CompOp { name: format!("{}::cross", stringify!($T)), ty: TyId::$T, binary: true,
+            vec: |a, b| bits(&mk::<$T>(a).cross(mk::<$T>(b))), model: cross_model, wrapped: cross_wrapped });
+    )*};
+}
+macro_rules! comp_vec2 {
+    ($v:ident, $($T:ident),*) => {$(
+        $v.push(CompOp { name: format!("{}::perp_dot", stringify!($T)), ty: TyId::$T, binary: true,
+            vec: |a, b| vec![mk::<$T>(a).perp_dot(mk::<$T>(b)).to_bits64()], model: perp_dot_model, wrapped: perp_dot_wrapped });
+        $v.push(CompOp { name: format!("{}::rotate", stringify!($T)), ty: TyId::$T, binary: true,
+            vec: |a, b| bits(&mk::<$T>(a).rotate(mk::<$T>(b))), model: rotate_model, wrapped: rotate_wrapped });
+        $v.push(CompOp { name: format!("{}::perp", stringify!($T)), ty: TyId::$T, binary: false,
+            vec: |a, _| bits(&mk::<$T>(a).perp()), model: perp_model, wrapped: perp_wrapped });
+    )*};
+}
+
+pub fn comp_ops() -> Vec<CompOp> {
+    let mut v = Vec::new();
+    comp_cross!(v, I8Vec3, U8Vec3, I16Vec3, U16Vec3, IVec3, UVec3, I64Vec3, U64Vec3, USizeVec3);
+    comp_vec2!(v, I8Vec2, I16Vec2, IVec2, I64Vec2);
+    v
+}
+
+fn elem_range(e: Elem) -> (i128, i128) {
+    match e {
+        Elem::I8 => (i8::MIN as i128, i8::MAX as i128),
+        Elem::U8 => (0, u8::MAX as i128),
+        Elem::I16 => (i16::MIN as i128, i16::MAX as i128),
+        Elem::U16 => (0, u16::MAX as i128),
+        Elem::I32 => (i32::MIN as i128, i32::MAX as i128),
+        Elem::U32 => (0, u32::MAX as i128),
+        Elem::I64 => (i64::MIN as i128, i64::MAX as i128),
+        _ => (0, u64::MAX as i128),
+    }
+}
+
+fn elem_signed(e: Elem) -> bool {
+    matches!(e, Elem::I8 | Elem::I16 | Elem::I32 | Elem::I64)
+}
+
+/// does this build check integer overflow? (probed, because `cfg(overflow_checks)` is not stable)
+fn overflow_checks() -> bool {
+    use std::sync::OnceLock;
+    static P: OnceLock<bool> = OnceLock::new();
+    *P.get_or_init(|| util::catch(|| { let x: i8 = std::hint::black_box(127); std::hint::black_box(x + std::hint::black_box(1)) }).is_err())
+}
+
+pub fn judge_comp(op: &CompOp, a: &[u64], b: &[u64]) -> (Option<(String, String)>, bool) {
+    let e = op.ty.elem();
+    let wide = |x: &u64| if elem_signed(e) { *x as i64 as i128 } else { *x as i128 };
+    let (aw, bw): (Vec<i128>, Vec<i128>) = (a.iter().map(wide).collect(), b.iter().map(wide).collect());
+    let (lo, hi) = elem_range(e);
+    let fits = |x: &i128| *x >= lo && *x <= hi;
+    // wrapped result in the storage convention of the model (sign- or zero-extended element)
+    let wrapped: Vec<u64> = (op.wrapped)(a, b).iter().map(|x| scalar_bits_trunc(e, *x)).collect();
+    let f = op.vec;
+    let got = util::catch(|| f(a, b));
+    let shown = if op.binary { format!("{}({}, {})", op.name, render(e, a), render(e, b)) } else { format!("{}({})", op.name, render(e, a)) };
+    let (must_panic, must_return) = match (op.model)(&aw, &bw) {
+        Some((lanes, inter)) => {
+            let out = !lanes.iter().all(fits);
+            (out && overflow_checks(), !overflow_checks() || inter.iter().all(fits))
+        }
+        None => (false, !overflow_checks()),
+    };
+    match got {
+        Err(p) => {
+            if must_return {
+                (Some((format!("panic:{}", op.name), format!("{shown}: no primitive operation of the expression overflows in this build, the vector operation panicked: {}", p.msg))), true)
+            } else if !p.msg.starts_with("attempt to ") {
+                (Some((format!("panic:{}", op.name), format!("{shown}: panicked with something other than the primitive's overflow: {}", p.msg))), true)
+            } else {
+                (None, true)
+            }
+        }
+        Ok(r) => {
+            if must_panic {
+                (Some((format!("missing-panic:{}", op.name), format!("{shown}: the exact result does not fit the element type, so every expression of primitive operations overflows, but the call returned {}", render(e, &r)))), false)
+            } else if r != wrapped {
+                (Some((format!("wrong-lanes:{}", op.name), format!("{shown} = {} but the expression evaluates to {}", render(e, &r), render(e, &wrapped)))), false)
+            } else {
+                (None, false)
+            }
+        }
+    }
+}
+
+/// low bits of `x` as an element of kind `e`, in the storage convention (sign- / zero-extended)
+fn scalar_bits_trunc(e: Elem, x: u64) -> u64 {
+    match e {
+        Elem::I8 => x as i8 as u64,
+        Elem::U8 => x as u8 as u64,
+        Elem::I16 => x as i16 as u64,
+        Elem::U16 => x as u16 as u64,
+        Elem::I32 => x as i32 as u64,
+        Elem::U32 => x as u32 as u64,
+        _ => x,
+    }
+}
+
+fn comp_replay_json(op: &CompOp, a: &[u64], b: &[u64], seed: u64, class: &str, detail: &str) -> J {
+    let hex = |v: &[u64]| v.iter().map(|x| format!("0x{x:x}")).collect::<Vec<_>>();
+    json!({"property": "C18", "part": "I", "config": util::CONFIG_TAG, "profile": util::profile_tag(), "seed": seed,
+           "op": op.name, "composite": true, "a": hex(a), "b": hex(b), "violation_class": class, "observed": detail})
+}
+
+/// every (lane, edge value) pair of both operands, magnitudes around the square root of the type's range (where the
+/// products start to overflow), and seeded samples
+pub fn run_composites(seed: u64, samples: usize, sum: &mut Summary) {
+    let ops = comp_ops();
+    for (oi, op) in ops.iter().enumerate() {
+        let n = op.ty.n();
+        let e = op.ty.elem();
+        let mut rng = Rng::new(seed, "c18i-comp", oi as u64);
+        let (_, hi) = elem_range(e);
+        let root = (hi as f64).sqrt() as i64;
+        let around: Vec<i64> = vec![root - 1, root, root + 1, root + 2, -(root - 1), -root, -(root + 1), root / 2, root * 2, 3, -3];
+        let mut cases: Vec<(Vec<u64>, Vec<u64>)> = Vec::new();
+        for la in 0..n {
+            for ia in 0..N_INT_LATTICE + around.len() {
+                for lb in 0..n {
+                    for ib in 0..N_INT_LATTICE + around.len() {
+                        let pick = |rng: &mut Rng, i: usize| if i < N_INT_LATTICE { gen_scalar_bits(e, rng, Cls::Lattice(i)) } else { scalar_bits_of(e, around[i - N_INT_LATTICE]) };
+                        let mut a: Vec<u64> = (0..n).map(|_| gen_scalar_bits(e, &mut rng, Cls::Ordinary)).collect();
+                        let mut b: Vec<u64> = (0..n).map(|_| gen_scalar_bits(e, &mut rng, Cls::Ordinary)).collect();
+                        a[la] = pick(&mut rng, ia);
+                        b[lb] = pick(&mut rng, ib);
+                        cases.push((a, b));
+                    }
+                }
+            }
+        }
+        for k in 0..samples {
+            let cls = match k % 3 { 0 => Cls::RandomBits, 1 => Cls::Mix, _ => Cls::Ordinary };
+            let mut a: Vec<u64> = (0..n).map(|_| gen_scalar_bits(e, &mut rng, cls)).collect();
+            let mut b: Vec<u64> = (0..n).map(|_| gen_scalar_bits(e, &mut rng, cls)).collect();
+            if k % 3 == 2 {
+                // every lane around the square root of the range: products at the edge of overflowing, differences inside
+                for x in a.iter_mut().chain(b.iter_mut()) {
+                    *x = scalar_bits_of(e, around[rng.below(around.len())] + rng.below(5) as i64 - 2);
+                }
+            }
+            cases.push((a, b));
+        }
+        let mut panics = 0u64;
+        let mut viol: Option<Violation> = None;
+        for (a, b) in &cases {
+            let (v, panicked) = judge_comp(op, a, b);
+            if panicked {
+                panics += 1;
+            }
+            if let (Some((class, detail)), None) = (v, &viol) {
+                viol = Some(Violation { class: class.clone(), detail: detail.clone(), replay: comp_replay_json(op, a, b, seed, &class, &detail) });
+            }
+        }
+        sum.evaluations += cases.len() as u64;
+        *sum.faults_fired.get_mut("INT_EDGE_VALUE").unwrap() += cases.len() as u64;
+        *sum.faults_effective.get_mut("INT_EDGE_VALUE").unwrap() += panics;
+        sum.distinct.insert(op.name.clone());
+        if let Some(v) = viol {
+            sum.violations.push(v);
+        }
+    }
+    sum.extra.insert("composite_integer_ops".into(), json!(ops.len()));
+    sum.extra.insert("overflow_checks_in_this_build".into(), json!(overflow_checks()));
 }
